@@ -119,14 +119,12 @@ class Repeat(Expression):
         gen.writeln("# <Repeat>")
 
         tmp_pairs = gen.new_temp("children")
-        trivia_pos = gen.new_temp("trivia_pos")
 
-        gen.writeln(f"{trivia_pos} = state.pos")
         gen.writeln(f"{tmp_pairs}: list[Pair] = []")
+        gen.writeln("state.checkpoint()")
 
         gen.writeln("while True:")
         with gen.block():
-            gen.writeln("state.checkpoint()")
             # Parse one item
             self.expression.generate(gen, matched_var, tmp_pairs)
 
@@ -136,15 +134,14 @@ class Repeat(Expression):
                 # Commit the item immediately
                 gen.writeln(f"{pairs_var}.extend({tmp_pairs})")
                 gen.writeln(f"{tmp_pairs}.clear()")
-                # Save pos before trivia
-                gen.writeln(f"{trivia_pos} = state.pos")
-                # Parse trivia after item
+                # Checkpoint before trivia, so a failed next item gives back
+                # everything the trivia did (position and stack).
+                gen.writeln("state.checkpoint()")
                 gen.writeln(f"skip_trivia(state, {tmp_pairs})")
             gen.writeln("else:")
             with gen.block():
-                # Restore checkpoint and also rewind trivia pos
+                # Also gives back trivia matched after the last iteration.
                 gen.writeln("state.restore()")
-                gen.writeln(f"state.pos = {trivia_pos}")
                 # Always succeed
                 gen.writeln(f"{matched_var} = True")
                 gen.writeln("break")
